@@ -145,9 +145,14 @@ def run_cases(prop, cases, jobs, watchdog, env, progress=False):
                                         "inconclusive": ["%s: %s" % (case.get("name"), why)],
                                         "counters": {}, "samples": [], "sites": [], "wall": watchdog})
                 continue
+            if r.get("recycle"):
+                # the worker said it exits after this case (a hang or deadlock left threads behind)
+                w.close()
+                w = None
             if r.get("inconclusive") and not r.get("violations") and attempt < 1:
                 # one retry in a fresh worker before the case counts as inconclusive
-                w.close()
+                if w is not None:
+                    w.close()
                 w = None
                 todo.put((case, attempt + 1))
                 continue
